@@ -166,13 +166,15 @@ class GateDomain(Domain):
             self.problems.append(("comparison-shape", "comparison `%s` is not one of the modelled forms (attempts vs retry_attempts, elapsed time vs timeout)" % node_src(node), node))
             return TOP
         for x, y in ((l, r), (r, l)):
+            if isinstance(x, Meta) and y == NONE and isinstance(op, (ast.Is, ast.IsNot, ast.Eq, ast.NotEq)):
+                return Const(isinstance(op, (ast.IsNot, ast.NotEq)))  # a record is a dict, never None
             if isinstance(x, ErrVal) and y == NONE:
                 return Const(False) if isinstance(op, (ast.Is, ast.Eq)) else Const(True)
         return super().compare(node, op, l, r, state)
 
     def truth(self, v, state=None):
-        if isinstance(v, ErrVal):
-            return True
+        if isinstance(v, (ErrVal, Meta)):
+            return True  # (a failure record always has its two entries)
         if isinstance(v, Opaque) and v.tag == "self._dead_clients":
             return None
         return super().truth(v, state)
@@ -183,7 +185,10 @@ class GateDomain(Domain):
         return None
 
     def _ev(self, state, *ev):
-        return state.set("#ev", state.get("#ev", ()) + (tuple(ev),))
+        cur = state.get("#ev", ())
+        if len(cur) >= 2 and cur[-1] == tuple(ev) and cur[-2] == tuple(ev):
+            return state  # saturate: a loop that repeats one event has "two or more" of it (the fixpoint must end)
+        return state.set("#ev", cur + (tuple(ev),))
 
     def call(self, node, fval, args, kwargs, state):
         name = call_name(node)
@@ -203,6 +208,11 @@ class GateDomain(Domain):
             return [("ok", NONE, self._ev(state, "evict", _vkey(args[0]) if args else None))]
         if name == "self.add_server":
             return [("ok", NONE, self._ev(state, "revive", _vkey(args[0]) if args else None))]
+        if name == "self._failed_clients.get" and 1 <= len(args) <= 2:
+            # one lookup instead of `in` + `[]`: the record while the server is failing, the default otherwise
+            if self.cfg["in_failed"]:
+                return [("ok", Meta(args[0]), state)]
+            return [("ok", args[1] if len(args) == 2 else NONE, state)]
         if name == "self._failed_clients.pop":
             return [("ok", TOP, self._ev(state, "forget", _vkey(args[0]) if args else None))]
         if name in ("self.hasher.remove_node", "self.hasher.add_node"):
@@ -475,6 +485,7 @@ def run(chk):
     from . import rules_C12, report
 
     report.include_rules(chk, r6, rules_C12, ("C12.R1", "C12.R2"), "while a server is out its keys go to the remaining servers and return to it after revival only if placement is recomputed from the servers currently in rotation on every call")
+    report.include_rules(chk, r6, rules_C12, ("C12.R3",), "a multi-key call contacts each server once, so one call counts as one attempt against the retry budget and a server is evicted at most once")
     # the failover logic only works on failures it gets to see: the per-server clients must not swallow them
     from . import pooled as pooled_an
 
@@ -488,6 +499,8 @@ def run(chk):
             raise AnalysisError("C13.R5: no construction of a per-server client is reached through %s.__init__ + add_server" % cname)
         for pos, kw in hcreated:
             v = kw.get("ignore_exc", None)
+            if type(v).__name__ == "MaybeV" and v.v == Const(False):
+                v = v.v  # passed as False or left to Client's default False: the same
             if v is None and "**" in kw:
                 r5.undecided("%s:ignore_exc-forwarded" % cname, "the per-server clients are constructed with a `**mapping` whose content the analysis lost")
                 continue
